@@ -36,6 +36,7 @@ INF = float("inf")
 PS = [1, 2, INF]
 
 OBLIGATIONS = {
+    "first_track_closed_by_loop": "a closed first track built with Track.loop(add=True)",
     "points_a_few_hundredths_of_a_millimetre_apart": "tracks on a lattice of 0.03 mm step (distinct points, closer than 1e-4 m) were matched",
     "long_pair": "a pair whose distance table has more than 128 cells (12 x 11, 7 x 19, 16 x 16, 3 x 50) was matched",
     "exponent_as_numpy_scalar": "p = 1 and p = 2 were also passed as numpy.int64 and numpy.float64",
@@ -238,13 +239,18 @@ def close(a, b):
 # ---------------------------------------------------------------------------
 # the check
 # ---------------------------------------------------------------------------
-def make_track(variant, pts):
+def make_track(variant, pts, looped=False):
+    """looped: a closed track (last point == first point) built the way a caller closes one: all fixes but the last, then
+    Track.loop(add=True)."""
     t0 = alpha.t0(variant)
     obs = []
-    for i, pt in enumerate(pts):
+    for i, pt in enumerate(pts[:-1] if looped else pts):
         x, y, z = coords(variant, pt)
         obs.append(Obs(ENUCoords(x, y, z), alpha.obstime(t0 + i)))
-    return Track(obs)
+    t = Track(obs)
+    if looped:
+        t.loop(add=True)
+    return t
 
 
 def read_coupling(m, n1, n2):
@@ -364,6 +370,12 @@ def check_pair(variant, A, B, p, dim, ctx):
                           make_track(variant, P2), X1, X2, p, dim, c2, ctx, tie)
                 ctx.count("matchings_executed")
                 ctx.oblige("rematch_of_a_matching")
+            if mname in ("dtw", "fdtw") and len(P1) >= 3 and P1[0] == P1[-1]:
+                # the first track is closed: the same track built with loop(add=True) instead of a last fix of its own
+                check_one(SITE[mname] + "/first-track-closed-by-loop", MODES[mname], make_track(variant, P1, looped=True),
+                          make_track(variant, P2), X1, X2, p, dim, dict(c, looped=True), ctx, tie)
+                ctx.count("matchings_executed")
+                ctx.oblige("first_track_closed_by_loop")
             if order == "AB" and mname in ("dtw", "fdtw") and p != INF:
                 # the exponent as a numpy integer and as a numpy float (what np.arange / an array element hands over)
                 for pname, pconv in (("numpy.int64", np.int64), ("numpy.float64", np.float64)):
